@@ -83,6 +83,8 @@ TIE_FUNCS = {
     "LSProofs.Gen.Extend": ["LeanString.extend_char", "LeanString.extend_str", "LeanString.extend_string", "LeanString.extend_box",
                             "LeanString.push", "LeanString.push_str", "LeanString.try_push", "LeanString.try_push_str",
                             "LeanString.try_reserve", "Repr.push_str", "Repr.reserve"],
+    "LSProofs.Gen.Collect": ["LeanString.from_iter_char", "LeanString.from_iter_str", "LeanString.from_iter_string", "LeanString.new",
+                             "LeanString.drop", "LeanString.extend_str", "LeanString.push", "Repr.with_capacity", "Repr.new"],
     "LSProofs.Gen.CloneDrop": ["LeanString.clone", "LeanString.clone_from", "LeanString.drop", "Repr.make_shallow_clone",
                                "Repr.replace_inner", "Repr.new"],
     "LSProofs.Gen.StepG": ["Repr.new", "Repr.from_str", "Repr.with_capacity", "Repr.replace_inner", "Repr.set_len", "Repr.truncate_unchecked",
@@ -95,11 +97,11 @@ TIE_FUNCS = {
                           "Repr.make_shallow_clone"],
 }
 TIES = {
-    "C01": T("Ctor", "Readers", "Release", "SetLen", "Reserve", "Ensure", "Shrink", "Clone", "Clear", "PushStr", "InsertStr", "PopRemove", "Good", "Wrappers", "Panicking", "Extend", "CloneDrop", "StepG") + ["LSProofs.Props.C01G"],
+    "C01": T("Ctor", "Readers", "Release", "SetLen", "Reserve", "Ensure", "Shrink", "Clone", "Clear", "PushStr", "InsertStr", "PopRemove", "Good", "Wrappers", "Panicking", "Extend", "Collect", "CloneDrop", "StepG") + ["LSProofs.Props.C01G"],
     "C02": T("Reserve", "Ensure", "Shrink", "Clear", "SetLen", "StepG"),
-    "C03": T("Release", "Clone", "CloneDrop", "Reserve", "Ensure", "Shrink", "StepG"),
-    "C05": T("Reserve", "Ensure", "Shrink", "SetLen", "Ctor", "PushStr", "InsertStr", "PopRemove", "Wrappers", "Panicking", "Extend"),
-    "C06": T("Reserve", "Shrink", "Ctor", "Extend"),
+    "C03": T("Release", "Clone", "CloneDrop", "Collect", "Reserve", "Ensure", "Shrink", "StepG"),
+    "C05": T("Reserve", "Ensure", "Shrink", "SetLen", "Ctor", "PushStr", "InsertStr", "PopRemove", "Wrappers", "Panicking", "Extend", "Collect"),
+    "C06": T("Reserve", "Shrink", "Ctor", "Extend", "Collect"),
     "C07": T("SetLen", "InsertStr", "PopRemove"),
     "C08": T("Clone", "CloneDrop"),
     "C09": T("Ctor", "Reserve", "PushStr", "InsertStr", "PopRemove", "Wrappers"),
@@ -107,7 +109,7 @@ TIES = {
     "C11": T("Readers", "Ctor", "Reserve", "PushStr", "InsertStr", "Wrappers"),
     "C12": T("Reserve"),
     "C13": T("Shrink"),
-    "C18": T("Extend"),
+    "C18": T("Extend", "Collect"),
     "C20": T("Kind"),
 }
 
